@@ -31,10 +31,13 @@ ASSUMPTIONS = ["float64 CPU, 1 thread", "scf_eps 1e-10 (SCF noise is 2-3 orders 
                "SP2 is a deterministic per-row map: SP2 cells are judged with the same scf_eps-derived bounds as "
                "diagonalisation cells, independent of the SP2 tolerance",
                "bitwise equality is demanded only between layouts that differ in padding coordinate values alone",
+               "with the per-row mixers [0, alpha] and [1] (no SP2, no Pulay) the SCF of a row is a deterministic per-row "
+               "iteration: its cycle count is independent of padding / batch mates (judged at scf_eps >= 1e-6 only, where "
+               "round-off cannot flip the stopping test) and alone-vs-batch differences do not scale with scf_eps",
                "excited-state force comparison only when the active root is >= 0.05 eV from its neighbours"]
 REQUIRED_MONITORS = ["rows_compared", "padding_only_pairs", "swap_pairs", "cis_rows_compared", "md_rows_compared",
                      "sp2_calls", "perm_layouts", "parser_calls_checked", "equal_norb_batches", "finite_T_batches", "fermi_q_calls",
-                     "md_dof_ratio_rows", "md_dof_scale_vel_rows"]
+                     "md_dof_ratio_rows", "md_dof_scale_vel_rows", "scf_cycle_rows_compared"]
 # thorough tier: cases not started after this many seconds are skipped and reported (env override for smoke tests)
 BUDGET_S = {"thorough": float(__import__("os").environ.get("VERIF_C05_BUDGET", "1700"))}
 CASE_TIMEOUT = 900.0
@@ -211,6 +214,30 @@ def _finite_T_cases(g, tier):
     return out
 
 
+def _loose_eps_cases(g, tier):
+    """Named cells: loose SCF thresholds with the per-row mixers ([0, alpha] and [1]; Pulay is batch-coupled and stays out).
+    With these solvers the SCF of a row is a deterministic per-row iteration, so (a) the number of SCF cycles of a row must
+    not depend on padding / batch mates (judged at scf_eps >= 1e-6, where a round-off induced flip has probability < 1e-7
+    per row) and (b) alone-vs-batch values keep the ABSOLUTE bounds of the tight cells - they must not scale with scf_eps.
+    Measured on main over the whole quick+thorough sp workload of these solvers at scf_eps 1e-5/1e-6/1e-7 (365 cases,
+    16170 rows, RHF and UHF): 0 cycle-count differences, value differences <= 1e-12 eV / 2e-12 eV/A (round-off)."""
+    if tier == "quick":
+        plan = [("AM1", (0, 0.3), False, 1e-5), ("PM3", (1,), False, 1e-5), ("MNDO", (0, 0.5), False, 1e-6), ("AM1", (1,), True, 1e-5),
+                ("PM3", (0, 0.2), True, 1e-6), ("PM6_SP", (1,), False, 1e-7), ("MNDO", (1,), False, 1e-6), ("AM1", (0, 0.1), False, 1e-7)]
+    else:
+        plan = [(m, c, u, e) for m in ("AM1", "PM3", "MNDO", "PM6_SP") for c in ((0, 0.1), (0, 0.3), (0, 0.6), (1,))
+                for u in (False, True) for e in (1e-5, 1e-6, 1e-7)]
+    out = []
+    for method, conv, uhf, eps in plan:
+        mem = _pick_members(g, method, uhf, 3)
+        lay, exh = _layouts(g, len(mem), tier, 6)
+        out.append({"kind": "sp", "method": method, "conv": list(conv), "sp2": None, "uhf": uhf, "grad": "autodiff", "members": mem,
+                    "layouts": lay, "perms_exhaustive": exh, "tag": "loose-eps", "eps": eps,
+                    "padfam": {"perm": [int(i) for i in g.permutation(len(mem))], "pad": int(g.integers(1, 4)),
+                               "seeds": [int(g.integers(0, 2**31)) for _ in range(2)]}})
+    return out
+
+
 def _md_dof_cases(g, tier):
     """Named cells: a non-linear molecule alone vs batched with a diatomic (both orders), remove_com=('angular', 1):
     (a) Temp > 0, velocities drawn by the engine - the draws differ between the two runs (different tensor shapes), so
@@ -331,6 +358,7 @@ def gen_cases(tier, seed):
     # drawn last from a generator of their own, so that the cases above are unchanged by this addition
     sp += _equal_norb_cases(gen.rng("C05", tier, "equal-norb"), tier)
     sp += _finite_T_cases(gen.rng("C05", tier, "finite-T"), tier)
+    sp += _loose_eps_cases(gen.rng("C05", tier, "loose-eps"), tier)
     cases += _md_dof_cases(gen.rng("C05", tier, "md-dof"), tier)
     return sp[:3] + cases + sp[3:]
 
@@ -447,6 +475,8 @@ def _eps_eff(case):
     # empty), so alone-vs-batch agreement must NOT scale with the SP2 tolerance: SP2 cells get the same scf_eps-derived
     # bounds as diagonalisation cells (main shows 5e-13 eV / 6e-9 eV/A / 4e-10 e at SP2 tolerances 1e-5..1e-9).
     e = case.get("eps", EPS)
+    if case.get("tag") == "loose-eps":
+        e = EPS             # per-row mixers: alone-vs-batch keeps the absolute bounds, it must not scale with scf_eps
     conv = case.get("conv", [2])
     A = 1.0 / (1.0 - conv[1]) if conv[0] == 0 and len(conv) > 1 else 1.0
     return e * A
@@ -632,6 +662,9 @@ def _run_sp(case):
     base_cell = "%s/conv%s/sp2=%s/%s/%s" % (case["method"], "-".join(str(x) for x in case["conv"]), case.get("sp2"),
                                              "UHF" if case.get("uhf") else "RHF", case["grad"])
     acc.cells.add(base_cell)
+    if case.get("tag") == "loose-eps":
+        acc.cells.add("loose-eps/eps=%g/%s/conv%s/%s" % (case["eps"], case["method"], "-".join(str(x) for x in case["conv"]),
+                                                        "UHF" if case.get("uhf") else "RHF"))
     if case.get("tag") == "finite-T":
         acc.cells.add("finite-T/T_el=%g/%s/%s" % (case["conv"][3], case["method"],
                                                  "anion" if any(m["q"] < 0 for m in mems) else "neutral"))
@@ -686,12 +719,23 @@ def _run_sp(case):
         diis_events = list(dw.events) if (dw and case["conv"][0] == 2) else []
         if any(e["innocent_rows"] for e in diis_events):
             acc.count("diis_resets_applied_to_other_rows", sum(1 for e in diis_events if e["innocent_rows"]))
+        per_row_solver = case["conv"][0] in (0, 1) and not case.get("sp2")
         for k, i in enumerate(L["perm"]):
             innocent = sum(1 for e in diis_events if k in e["innocent_rows"])
+            if per_row_solver and alone[i].get("_iters") is not None and b.get("_iters") is not None:
+                ia, ib = int(alone[i]["_iters"][0]), int(b["_iters"][k])
+                if case.get("eps", EPS) >= 1e-6:
+                    acc.count("scf_cycle_rows_compared")
+                    if acc.upd("scf_cycles_alone_vs_batch", abs(ia - ib) * 2.0, 1.0):
+                        acc.viol.append({"clause": "scf-cycle-count-depends-on-batch-layout", "mech": None,
+                                         "detail": dict(det, row=k, mol=mems[i]["name"], cycles_alone=ia, cycles_batch=ib,
+                                                        scf_eps=case.get("eps", EPS))})
+                elif ia != ib:
+                    acc.count("scf_cycle_differences_at_tight_eps_recorded_only")
 
             def mech_fn(bad_keys, k=k, i=i, innocent=innocent, mols=mols, b=b):
                 if case.get("sp2"):
-                    return _sp2_mech(case, mols, row=k)
+                    return None      # the row-4 key names the non-terminating loop only (loop-bound trips), never a value mismatch
                 return _pulay_mech(case, mems[i], alt_cache, _settings, float(b["Etot"][k]), tol["E"], innocent, P_row=b["dm"][k])
 
             ok = _compare_row(acc, case, tol, alone[i], b, k, mems[i], "alone-vs-batch",
